@@ -32,7 +32,7 @@ CONSTANTS
   MaxGc,         \* bound on garbage-collection runs
   MaxLen,        \* history length bound (generation)
   Dev_MemOldestFirst, Dev_L0OldestFirst, Dev_ScanDropsMemTomb,
-  Dev_GetLevelsFirst, Dev_EndSeqLastKey, Dev_RotateDropsLatest, Dev_TableIdReuse, Dev_GcIgnoresSharing
+  Dev_GetLevelsFirst, Dev_EndSeqLastKey, Dev_RotateDropsLatest, Dev_TableIdReuse, Dev_GcIgnoresSharing, Dev_RetainDropsNewer
 
 Tomb == 0
 Panic == "PANIC"
@@ -59,13 +59,14 @@ VARIABLES
   returned,  \* checkpoint ids whose handle has been returned
   rd,        \* in-flight read
   oracle, snapAt,   \* ghosts
+  dropped,   \* checkpoint ids the caller has dropped (retention named newer ones only, or a restart from another one)
   zombies,   \* table ids of in-memory tables of a replaced database instance (same process), not yet collected
   nops, nrd, nck, nre, nrt, ngc, hist
 
 vars == <<seq, mem, lv, latest, wal, flushQ, flush, compQ, comp, nextTid, ckpts, pendRm,
-          saves, files, returned, rd, oracle, snapAt, zombies, nops, nrd, nck, nre, nrt, ngc, hist>>
+          saves, files, returned, rd, oracle, snapAt, dropped, zombies, nops, nrd, nck, nre, nrt, ngc, hist>>
 view == <<seq, mem, lv, latest, wal, flushQ, flush, compQ, comp, nextTid, ckpts, pendRm,
-          saves, files, returned, rd, oracle, snapAt, zombies, nops, nrd, nck, nre, nrt, ngc>>
+          saves, files, returned, rd, oracle, snapAt, dropped, zombies, nops, nrd, nck, nre, nrt, ngc>>
 
 EmptyMt == [k \in {} |-> [s |-> 0, v |-> 0]]
 NoFlush == [on |-> FALSE, n |-> 0, tabs |-> <<>>]
@@ -80,7 +81,7 @@ Init ==
   /\ flushQ = 0 /\ flush = NoFlush /\ compQ = 0 /\ comp = NoComp /\ nextTid = 0
   /\ ckpts = <<>> /\ pendRm = {} /\ saves = {} /\ files = NoFiles /\ returned = {}
   /\ rd = NoRead /\ oracle = [k \in Keys |-> Tomb] /\ snapAt = [i \in {} |-> oracle]
-  /\ zombies = {} /\ nops = 0 /\ nrd = 0 /\ nck = 0 /\ nre = 0 /\ nrt = 0 /\ ngc = 0 /\ hist = <<>>
+  /\ dropped = {} /\ zombies = {} /\ nops = 0 /\ nrd = 0 /\ nck = 0 /\ nre = 0 /\ nrt = 0 /\ ngc = 0 /\ hist = <<>>
 
 Log(r) == hist' = Append(hist, r)
 
@@ -169,7 +170,7 @@ Write(k, v) ==
   /\ LET st == ApplyWrite([mem |-> mem, wal |-> wal, flushQ |-> flushQ, seq |-> seq], k, v)
      IN /\ mem' = st.mem /\ wal' = st.wal /\ flushQ' = st.flushQ /\ seq' = st.seq
         /\ Log([a |-> IF v = Tomb THEN "Delete" ELSE "Put", k |-> k, v |-> v, rot |-> st.rot])
-  /\ UNCHANGED <<lv, latest, flush, compQ, comp, nextTid, ckpts, pendRm, saves, files, returned, rd, snapAt, nrd, nck, nre, nrt, zombies, ngc>>
+  /\ UNCHANGED <<lv, latest, flush, compQ, comp, nextTid, ckpts, pendRm, saves, files, returned, rd, snapAt, nrd, nck, nre, nrt, zombies, ngc, dropped>>
 
 \* Get: two captures (level list, memtable list) with background steps possible in between
 GetBegin(k) ==
@@ -178,7 +179,7 @@ GetBegin(k) ==
            THEN [on |-> TRUE, kind |-> "get", arg |-> {k}, capMem |-> <<>>, capLv |-> lv]
            ELSE [on |-> TRUE, kind |-> "get", arg |-> {k}, capMem |-> mem, capLv |-> <<>>]
   /\ Log([a |-> "GetBegin", k |-> k])
-  /\ UNCHANGED <<seq, mem, lv, latest, wal, flushQ, flush, compQ, comp, nextTid, ckpts, pendRm, saves, files, returned, oracle, snapAt, nops, nck, nre, nrt, zombies, ngc>>
+  /\ UNCHANGED <<seq, mem, lv, latest, wal, flushQ, flush, compQ, comp, nextTid, ckpts, pendRm, saves, files, returned, oracle, snapAt, nops, nck, nre, nrt, zombies, ngc, dropped>>
 
 ReadValue == LET k == CHOOSE k \in rd.arg : TRUE
                  m == IF Dev_GetLevelsFirst THEN mem ELSE rd.capMem
@@ -188,7 +189,7 @@ GetEnd ==
   /\ rd.on /\ rd.kind = "get"
   /\ rd' = NoRead
   /\ Log([a |-> "GetEnd", k |-> CHOOSE k \in rd.arg : TRUE, demanded |-> oracle[CHOOSE k \in rd.arg : TRUE], predicted |-> ReadValue])
-  /\ UNCHANGED <<seq, mem, lv, latest, wal, flushQ, flush, compQ, comp, nextTid, ckpts, pendRm, saves, files, returned, oracle, snapAt, nops, nrd, nck, nre, nrt, zombies, ngc>>
+  /\ UNCHANGED <<seq, mem, lv, latest, wal, flushQ, flush, compQ, comp, nextTid, ckpts, pendRm, saves, files, returned, oracle, snapAt, nops, nrd, nck, nre, nrt, zombies, ngc, dropped>>
 
 ScanBegin(P) ==
   /\ ~rd.on /\ nrd < MaxReads /\ nrd' = nrd + 1
@@ -196,7 +197,7 @@ ScanBegin(P) ==
            THEN [on |-> TRUE, kind |-> "scan", arg |-> P, capMem |-> <<>>, capLv |-> lv]
            ELSE [on |-> TRUE, kind |-> "scan", arg |-> P, capMem |-> mem, capLv |-> <<>>]
   /\ Log([a |-> "ScanBegin", p |-> P])
-  /\ UNCHANGED <<seq, mem, lv, latest, wal, flushQ, flush, compQ, comp, nextTid, ckpts, pendRm, saves, files, returned, oracle, snapAt, nops, nck, nre, nrt, zombies, ngc>>
+  /\ UNCHANGED <<seq, mem, lv, latest, wal, flushQ, flush, compQ, comp, nextTid, ckpts, pendRm, saves, files, returned, oracle, snapAt, nops, nck, nre, nrt, zombies, ngc, dropped>>
 
 ScanValue == LET m == IF Dev_GetLevelsFirst THEN mem ELSE rd.capMem
                  l == IF Dev_GetLevelsFirst THEN rd.capLv ELSE lv
@@ -205,7 +206,7 @@ ScanEnd ==
   /\ rd.on /\ rd.kind = "scan"
   /\ rd' = NoRead
   /\ Log([a |-> "ScanEnd", p |-> rd.arg, demanded |-> [k \in rd.arg |-> oracle[k]], predicted |-> ScanValue])
-  /\ UNCHANGED <<seq, mem, lv, latest, wal, flushQ, flush, compQ, comp, nextTid, ckpts, pendRm, saves, files, returned, oracle, snapAt, nops, nrd, nck, nre, nrt, zombies, ngc>>
+  /\ UNCHANGED <<seq, mem, lv, latest, wal, flushQ, flush, compQ, comp, nextTid, ckpts, pendRm, saves, files, returned, oracle, snapAt, nops, nrd, nck, nre, nrt, zombies, ngc, dropped>>
 
 -----------------------------------------------------------------------------
 \* background flush task (serialised by the global queue): start = snapshot the
@@ -220,7 +221,7 @@ FlushStart ==
                                              tabs[CHOOSE i \in 1..n : tabs[i].id = t].ents])]
   /\ flushQ' = flushQ - 1
   /\ Log([a |-> "FlushStart"])
-  /\ UNCHANGED <<seq, mem, lv, latest, wal, compQ, comp, ckpts, pendRm, saves, returned, rd, oracle, snapAt, nops, nrd, nck, nre, nrt, zombies, ngc>>
+  /\ UNCHANGED <<seq, mem, lv, latest, wal, compQ, comp, ckpts, pendRm, saves, returned, rd, oracle, snapAt, nops, nrd, nck, nre, nrt, zombies, ngc, dropped>>
 
 FlushSwap ==
   /\ flush.on
@@ -230,7 +231,7 @@ FlushSwap ==
   /\ wal' = WalTruncate(wal, latest')
   /\ flush' = NoFlush /\ compQ' = compQ + 1
   /\ Log([a |-> "FlushSwap"])
-  /\ UNCHANGED <<seq, flushQ, comp, nextTid, ckpts, pendRm, saves, files, returned, rd, oracle, snapAt, zombies, nops, nrd, nck, nre, nrt, ngc>>
+  /\ UNCHANGED <<seq, flushQ, comp, nextTid, ckpts, pendRm, saves, files, returned, rd, oracle, snapAt, dropped, zombies, nops, nrd, nck, nre, nrt, ngc>>
 
 \* background compaction (abstract policy: when L0 reaches the trigger, merge
 \* all of L0 and L1 into one L1 table; tombstones dropped because L1 is the base)
@@ -247,9 +248,9 @@ CompactPick ==
              /\ nextTid' = nextTid + Len(out)
              /\ files' = IF out = <<>> THEN files
                          ELSE [files EXCEPT !.sst = Override(@, [t \in {nextTid} |-> merged])]
-     ELSE UNCHANGED <<comp, nextTid, files, zombies, ngc>>
+     ELSE UNCHANGED <<comp, nextTid, files, zombies, ngc, dropped>>
   /\ Log([a |-> "CompactPick"])
-  /\ UNCHANGED <<seq, mem, lv, latest, wal, flushQ, flush, ckpts, pendRm, saves, returned, rd, oracle, snapAt, nops, nrd, nck, nre, nrt, zombies, ngc>>
+  /\ UNCHANGED <<seq, mem, lv, latest, wal, flushQ, flush, ckpts, pendRm, saves, returned, rd, oracle, snapAt, nops, nrd, nck, nre, nrt, zombies, ngc, dropped>>
 
 CompactSwap ==
   /\ comp.on
@@ -259,7 +260,7 @@ CompactSwap ==
   /\ comp' = NoComp
   /\ compQ' = compQ + 1   \* the task loops until Compact returns no change set
   /\ Log([a |-> "CompactSwap"])
-  /\ UNCHANGED <<seq, mem, wal, flushQ, flush, nextTid, ckpts, pendRm, saves, files, returned, rd, oracle, snapAt, zombies, nops, nrd, nck, nre, nrt, ngc>>
+  /\ UNCHANGED <<seq, mem, wal, flushQ, flush, nextTid, ckpts, pendRm, saves, files, returned, rd, oracle, snapAt, dropped, zombies, nops, nrd, nck, nre, nrt, ngc>>
 
 -----------------------------------------------------------------------------
 \* checkpoints
@@ -272,14 +273,14 @@ Checkpoint ==
         /\ snapAt' = Override(snapAt, [i \in {id} |-> oracle])
         /\ Log([a |-> "Checkpoint", id |-> id, snap |-> oracle])
   /\ wal' = WalRotate(wal)
-  /\ UNCHANGED <<seq, mem, lv, latest, flushQ, flush, compQ, comp, nextTid, pendRm, files, returned, rd, oracle, nops, nrd, nre, nrt, zombies, ngc>>
+  /\ UNCHANGED <<seq, mem, lv, latest, flushQ, flush, compQ, comp, nextTid, pendRm, files, returned, rd, oracle, nops, nrd, nre, nrt, zombies, ngc, dropped>>
 
 SaveWal(sv) ==
   /\ sv \in saves /\ sv.stage = "wal"
   /\ files' = [files EXCEPT !.wal = Override(@, [i \in {sv.walId} |-> sv.content])]
   /\ saves' = (saves \ {sv}) \cup {[sv EXCEPT !.stage = "doc"]}
   /\ Log([a |-> "SaveWal", id |-> sv.id])
-  /\ UNCHANGED <<seq, mem, lv, latest, wal, flushQ, flush, compQ, comp, nextTid, ckpts, pendRm, returned, rd, oracle, snapAt, nops, nrd, nck, nre, nrt, zombies, ngc>>
+  /\ UNCHANGED <<seq, mem, lv, latest, wal, flushQ, flush, compQ, comp, nextTid, ckpts, pendRm, returned, rd, oracle, snapAt, nops, nrd, nck, nre, nrt, zombies, ngc, dropped>>
 
 \* CheckpointList.Save: write the document with the *current* list, then delete
 \* the WALs of checkpoints pending removal
@@ -290,7 +291,7 @@ SaveDoc(sv) ==
   /\ saves' = saves \ {sv}
   /\ returned' = returned \cup {sv.id}
   /\ Log([a |-> "SaveDoc", id |-> sv.id])
-  /\ UNCHANGED <<seq, mem, lv, latest, wal, flushQ, flush, compQ, comp, nextTid, ckpts, rd, oracle, snapAt, nops, nrd, nck, nre, nrt, zombies, ngc>>
+  /\ UNCHANGED <<seq, mem, lv, latest, wal, flushQ, flush, compQ, comp, nextTid, ckpts, rd, oracle, snapAt, nops, nrd, nck, nre, nrt, zombies, ngc, dropped>>
 
 \* UpdateRetainedCheckpoints(ids): RetainOnly + Save (the caller is the job's
 \* retention notice, which only ever names completed = returned checkpoints)
@@ -298,13 +299,17 @@ Retain(ids) ==
   /\ nrt < MaxRetain /\ nrt' = nrt + 1
   /\ ids # {} /\ ids \subseteq returned
   /\ \E i \in 1..Len(ckpts) : ckpts[i].id \in ids      \* otherwise the code panics by design
-  /\ LET keepCp(c) == c.id \in ids
-         dropped == {ckpts[i].walId : i \in {j \in 1..Len(ckpts) : ckpts[j].id \notin ids}}
+  /\ LET top == Max(ids)
+         \* repaired code: a checkpoint newer than every named id is still being completed job-wide and is kept
+         keepCp(c) == c.id \in ids \/ (~Dev_RetainDropsNewer /\ c.id > top)
+         gone == {ckpts[i].walId : i \in {j \in 1..Len(ckpts) : ~keepCp(ckpts[j])}}
      IN /\ ckpts' = SelectSeq(ckpts, keepCp)
-        /\ files' = [files EXCEPT !.doc = SelectSeq(ckpts, keepCp), !.wal = Restrict(@, DOMAIN @ \ (pendRm \cup dropped))]
+        /\ files' = [files EXCEPT !.doc = SelectSeq(ckpts, keepCp), !.wal = Restrict(@, DOMAIN @ \ (pendRm \cup gone))]
         /\ pendRm' = {}
+        \* what the caller knowingly gave up: completed checkpoints older than the newest it names
+        /\ dropped' = dropped \cup {ckpts[i].id : i \in {j \in 1..Len(ckpts) : ckpts[j].id \notin ids /\ ckpts[j].id < top}}
   /\ Log([a |-> "Retain", ids |-> ids])
-  /\ UNCHANGED <<seq, mem, lv, latest, wal, flushQ, flush, compQ, comp, nextTid, saves, returned, rd, oracle, snapAt, nops, nrd, nck, nre, zombies, ngc>>
+  /\ UNCHANGED <<seq, mem, lv, latest, wal, flushQ, flush, compQ, comp, nextTid, saves, returned, rd, oracle, snapAt, zombies, nops, nrd, nck, nre, ngc>>
 
 -----------------------------------------------------------------------------
 \* opening a database from a checkpoint handle = pure function of durable state
@@ -356,6 +361,7 @@ Reopen(id, crash) ==
   /\ zombies' = IF crash THEN {} ELSE zombies \cup TabIds(lv) \cup UNION {TabIds(ckpts[i].lv) : i \in 1..Len(ckpts)}
   /\ (~crash) => (~flush.on /\ ~comp.on /\ saves = {})   \* the replaced instance is quiescent
   /\ Log([a |-> "Reopen", id |-> id, crash |-> crash, demanded |-> snapAt[id], predicted |-> Restored(id)])
+  /\ dropped' = (returned \cup {ckpts[i].id : i \in 1..Len(ckpts)}) \ {id}     \* a restart keeps working from this checkpoint only
   /\ UNCHANGED <<files, returned, rd, snapAt, nops, nrd, nrt, ngc>>
 
 \* runtime.GC(): every table object nothing refers to is collected and its
@@ -371,7 +377,7 @@ GcRun ==
      IN files' = [files EXCEPT !.sst = Restrict(@, DOMAIN @ \ dead)]
   /\ zombies' = {}
   /\ Log([a |-> "GcRun", demanded |-> oracle])
-  /\ UNCHANGED <<seq, mem, lv, latest, wal, flushQ, flush, compQ, comp, nextTid, ckpts, pendRm, saves, returned, rd, oracle, snapAt, nops, nrd, nck, nre, nrt>>
+  /\ UNCHANGED <<seq, mem, lv, latest, wal, flushQ, flush, compQ, comp, nextTid, ckpts, pendRm, saves, returned, rd, oracle, snapAt, nops, nrd, nck, nre, nrt, dropped>>
 
 -----------------------------------------------------------------------------
 Done == FALSE
@@ -401,7 +407,7 @@ ScanOK == (rd.on /\ rd.kind = "scan") => ScanValue = [k \in rd.arg |-> oracle[k]
 \* the retained checkpoints named by the saved document
 Retained == {files.doc[i].id : i \in 1..Len(files.doc)}
 \* C08: from the moment a handle is returned, for as long as it is retained
-RestoreBad == \E id \in returned \cap Retained : LET r == Restored(id) IN (~r.ok) \/ r.m # snapAt[id]
+RestoreBad == \E id \in returned \ dropped : (~HasDocCp(id)) \/ LET r == Restored(id) IN (~r.ok) \/ r.m # snapAt[id]
 RestoreOK == ~RestoreBad
 
 \* C09 (files half): everything a retained checkpoint document names exists
